@@ -240,11 +240,18 @@ def _run_tokenizer_case(ctx, data, cuts, rseed):
     rng = random.Random(rseed)
     cuts = tuple(sorted({min(max(c, 0), len(data)) for c in cuts}))
     chunks = gen.split_at(list(data), cuts)
-    tok = Tokenizer()
+    tok = None
     got, pos, it = [], 0, None
     try:
         for ci, chunk in enumerate(chunks):
-            if len(chunk) == 1 and rng.random() < 0.5:
+            if tok is None:
+                # the first chunk goes in through the constructor every other time
+                if rng.random() < 0.5:
+                    tok = Tokenizer((list, bytes, bytearray)[ci % 3](chunk))
+                else:
+                    tok = Tokenizer()
+                    tok.feed(chunk)
+            elif len(chunk) == 1 and rng.random() < 0.5:
                 tok.feed_byte(chunk[0])
             else:
                 tok.feed((list, bytes, bytearray)[ci % 3](chunk))
